@@ -518,7 +518,7 @@ theorem finRel_bind {σ σ' τ ρ γ : Type} (ψ : σ → τ) (ψ' : σ' → τ)
 integer (or list) arguments, each closed by `rfl` / `omega` -/
 macro "go_cong" : tactic => `(tactic|
   repeat' (first
-    | rfl
+    | (with_reducible rfl)
     | omega
     | (refine bind_congr_both ?_ (fun _ => ?_))
     | (refine congrArg (pure : _ → R _) ?_)
@@ -528,7 +528,16 @@ macro "go_cong" : tactic => `(tactic|
 
 /-- split every `if`/`match` on both sides; contradictory cases by arithmetic, the others by congruence -/
 macro "go_close'" : tactic => `(tactic|
-  ((repeat' split) <;> (first | rfl | omega | (go_cong; done) | (simp_all; done) | grind [List.isEmpty_iff])))
+  ((repeat' split) <;>
+    (first
+      | (with_reducible rfl)
+      | omega
+      | (simp_all only [Bool.false_eq_true, Bool.true_eq_false, Bool.not_eq_true, Bool.not_eq_false, not_true_eq_false,
+          not_false_eq_true]; done)
+      | (go_cong; done)
+      | rfl
+      | (simp_all; done)
+      | grind [List.isEmpty_iff])))
 
 /-- decide the guards of both sides from hypotheses given in both polarities (`h : a ≤ b`, `h' : ¬ b < a`), so that a
 negated or De-Morganed guard is decided as well -/
